@@ -192,9 +192,16 @@ def api_centroids(sc, D, E, U=None):
     x0, y0 = sc['pos'][0]
     sl = (slice(int(y0) - 6, int(y0) + 7), slice(int(x0) - 6, int(x0) + 7))
     Dc = D[sl]
-    out = {'plain:com': centroid_com(Dc), 'plain:quad': centroid_quadratic(Dc), 'plain:1dg': centroid_1dg(Dc), 'plain:2dg': centroid_2dg(Dc)}
+    def fitted(v):
+        # a Gaussian fit that ran away from the cut-out (several sources inside it: an ill-posed fit) amplifies rounding differences
+        # without bound; such results are reported as "diverged" (NaN) in every representation and counted
+        v = np.asarray(getattr(v, 'value', v), float)
+        if not (np.all(np.isfinite(v)) and 0.5 <= v[0] <= Dc.shape[1] - 1.5 and 0.5 <= v[1] <= Dc.shape[0] - 1.5):
+            return np.array([np.nan, np.nan])
+        return v
+    out = {'plain:com': centroid_com(Dc), 'plain:quad': centroid_quadratic(Dc), 'plain:1dg': fitted(centroid_1dg(Dc)), 'plain:2dg': fitted(centroid_2dg(Dc))}
     out['plain:sources'] = np.array(centroid_sources(D, [round(x0)], [round(y0)], box_size=7))
-    out['plain:1dg-err'] = centroid_1dg(Dc, error=E[sl])
+    out['plain:1dg-err'] = fitted(centroid_1dg(Dc, error=E[sl]))
     return out
 
 
